@@ -1142,3 +1142,47 @@ V('c02-multibyte-not-caught', 'C02', 'C02.R1',
 V('c02-redirect-valueerror-not-caught', 'C02', 'C02.R1',
   ('pywbem/_cim_http.py', '    except ValueError as exc:\n        # requests follows HTTP redirects', '    except UnicodeError as exc:\n        # requests follows HTTP redirects'),
   'ValueError')
+
+# ---- round l rules ----------------------------------------------------------
+V('c20-single-dict-early-break', 'C20', 'C20.R12',
+  ('pywbem/_valuemapping.py', '            if lo <= element_value <= hi:\n                return values_str\n', '            if element_value > hi:\n                break\n            if lo <= element_value:\n                return values_str\n'),
+  'search-cut-short')
+V('c07-host-class-without-hyphen', 'C07', 'C07.R2',
+  ('pywbem/_cim_obj.py', "    r'(?://([\\w.:@\\[\\]\\-]*))?'  # authority (host)\n", "    r'(?://([\\w.:@\\[\\]]*))?'  # authority (host)\n", 2, 1),
+  'host-not-accepted')
+V('c13-subclass-names-case-sensitive', 'C13', 'C13.R2',
+  ('pywbem_mock/_mainprovider.py', '                if c.superclass and c.superclass.lower() == classname.lower()]', '                if c.superclass and c.superclass == classname]'),
+  'case')
+V('c08-keyword-schema-not-a-name', 'C08', 'C08.R15',
+  ('pywbem/_mof_compiler.py', '                  | SCHEMA\n                  | SCOPE\n', '                  | SCOPE\n'),
+  'keyword-not-a-name')
+V('c17-ord-of-group-run', 'C17', 'C17.R2',
+  ('pywbem/_tupletree.py', "\\uD800-\\uDFFF\\uFFFE\\uFFFF])')", "\\uD800-\\uDFFF\\uFFFE\\uFFFF]{1,2})')"),
+  'TypeError')
+V('c03-instancename-normaliser-dropped', 'C03', 'C03.R11',
+  ('pywbem/_cim_operations.py', "            InstanceName = self._iparam_instancename(\n                InstanceName, 'InstanceName', required=True)\n", "            self._iparam_instancename(\n                InstanceName, 'InstanceName', required=True)\n", 6, 0),
+  'result-dropped')
+V('c04-classname-normaliser-dropped', 'C04', 'C04.R18',
+  ('pywbem/_cim_operations.py', "            AssocClass = self._iparam_classname(AssocClass, 'AssocClass')\n", "            self._iparam_classname(AssocClass, 'AssocClass')\n", 4, 0),
+  'result-dropped')
+V('c04-objectname-host-kept', 'C04', 'C04.R19',
+  ('pywbem/_cim_operations.py', '            objectname.host = None\n            objectname.namespace = None\n', '            objectname.namespace = None\n'),
+  'host-kept')
+V('c04-methodcall-bool-by-truth', 'C04', 'C04.R17',
+  ('pywbem/_cim_operations.py', "                if type_ == 'boolean':\n                    # The text of a VALUE element is 'true' or 'false' in any\n                    # lexical case; cimvalue() would apply the Python truth\n                    # test to that text ('FALSE' is a non-empty string).\n                    return rsp_boolean(value)\n                return cimvalue(value, type_)\n", '                return cimvalue(value, type_)\n'),
+  'text-truth-tested')
+V('c01-classorigin-on-some-paths', 'C01', 'C01.R19',
+  ('pywbem/_cim_obj.py', '        return _cim_xml.METHOD(\n            self.name,\n            parameters=[p.tocimxml() for p in self.parameters.values()],\n            return_type=self.return_type,\n            class_origin=self.class_origin,\n', '        class_origin = None\n        if self.propagated:\n            class_origin = self.class_origin\n        return _cim_xml.METHOD(\n            self.name,\n            parameters=[p.tocimxml() for p in self.parameters.values()],\n            return_type=self.return_type,\n            class_origin=class_origin,\n'),
+  'slot-on-some-paths')
+V('c12-modifyclass-drops-propagated', 'C12', 'C12.R16',
+  ('pywbem_mock/_mainprovider.py', '        modified_class = deepcopy(ModifiedClass)\n', '        modified_class = deepcopy(ModifiedClass)\n        for pname in [p for p, v in modified_class.properties.items()\n                      if v.propagated]:\n            del modified_class.properties[pname]\n'),
+  'element-removed')
+V('c14-openrefpaths-validate-after-open', 'C14', 'C14.R18',
+  ('pywbem_mock/_mainprovider.py', "        instances = self.ReferenceNames(namespace, InstanceName,\n                                        ResultClass=ResultClass,\n                                        Role=Role)\n\n        return self._open_response(namespace, instances,\n                                   'PullInstancePaths',\n                                   OperationTimeout,\n                                   MaxObjectCount,\n                                   ContinueOnError)\n", "        instances = self.ReferenceNames(namespace, InstanceName,\n                                        ResultClass=ResultClass,\n                                        Role=Role)\n\n        result = self._open_response(namespace, instances,\n                                     'PullInstancePaths',\n                                     OperationTimeout,\n                                     MaxObjectCount,\n                                     ContinueOnError)\n        self._validate_open_params(FilterQueryLanguage, FilterQuery,\n                                   OperationTimeout)\n        return result\n"),
+  'can-fail-after-registration')
+V('c18-owned-filters-not-copied', 'C18', 'C18.R14',
+  ('pywbem/_subscription_manager.py', '        return list(self._owned_filters[server_id])\n', '        return self._owned_filters[server_id]\n'),
+  'internal-list-returned')
+V('c11-namespace-set-raw-again', 'C11', 'C11.R3',
+  ('pywbem_mock/_instancewriteprovider.py', '                        ref_namespaces.setdefault(ns_key, refprop_namespace)\n', '                        ref_namespaces.setdefault(refprop_namespace,\n                                                  refprop_namespace)\n'),
+  'duplicates-possible')
